@@ -294,6 +294,13 @@ func (ch *Chaos) connScript(cp *ChaosPeer, c *Conn) {
 		ch.deviate(cp, c, dev)
 		return
 	}
+	// think time: creates quiescent points inside the handshake
+	think := func() {
+		if w.Chance(1, 3, "think") {
+			w.Sleep(time.Duration(w.Range(1, 400, "thinkms")) * time.Millisecond)
+		}
+	}
+	think()
 	c.SendSeg(sp.OpenFrame())
 	f := c.WaitFrame(5 * time.Minute)
 	if f == nil || f.Type != MsgKeepalive {
@@ -310,6 +317,8 @@ func (ch *Chaos) connScript(cp *ChaosPeer, c *Conn) {
 	}
 	if w.Chance(1, 6, "kadelay") {
 		w.Sleep(time.Duration(w.Range(1, 3000, "kadelayms")) * time.Millisecond)
+	} else {
+		think()
 	}
 	c.SendSeg(KeepaliveFrame())
 	if hostile(3) {
